@@ -376,6 +376,62 @@ theorem c29_single_subscriber (s : St) (h : Reach s) (t t' g g' : Nat)
     · exact (hi.pcFresh t' h2).1
   rw [w1] at w2; cases w2; rfl
 
+
+/-! ### Ties to the current source text (`P2/Extracted/C29.lean` is regenerated on every run) -/
+
+namespace X
+export P2.Extracted.C29 (tryCloneUpdate dropLastCond dropIgnoreGuard fastAcquire slowAcquire
+  waitBeforeSubscribe storedGuard flagRead cloneStep guardDropLast)
+end X
+
+/-- `try_clone`'s `fetch_update` closure (text re-extracted; an unknown closure text fails the
+extraction) is increment-iff-positive, and it is exactly the decision the model's `lookup` makes on the
+entry's counter: hand out a reference with the counter raised by one, or go to the slow path. -/
+theorem c29_try_clone_is_source (s : St) (t g : Nat) (hp : s.pc t = .idle) (hw : s.wlock = none)
+    (he : s.entry = some g) :
+    stepFn s (.lookup t) = some (match X.tryCloneUpdate P2.Extracted.C29.initialCounter (s.cells g) with
+      | some c' => { s with cells := setFn s.cells g c', handles := g :: s.handles }
+      | none => s.setPc t .missed) := by
+  have hst : stepFn s (.lookup t) = (match liveEntry s with
+      | some g => some (s.acquire g) | none => some (s.setPc t .missed)) := by
+    simp only [stepFn, hp, hw, and_self, if_true]
+    cases liveEntry s <;> rfl
+  rw [hst]
+  by_cases hc : s.cells g ≥ 1
+  · simp [liveEntry, he, hc, P2.Extracted.C29.tryCloneUpdate, P2.Extracted.C29.initialCounter,
+      initialCounter, St.acquire]
+  · simp [liveEntry, he, hc, P2.Extracted.C29.tryCloneUpdate, P2.Extracted.C29.initialCounter,
+      initialCounter]
+
+/-- …and of the second look-up under the write lock (same closure, same guard method: both look-ups
+call `try_clone`, the entry stored in `senders` is the non-counting `clone_without_increment`, and
+`has_unsubscribed` reads the flag `Drop` sets). -/
+theorem c29_stream_structure_is_source :
+    X.fastAcquire = "try_clone" ∧ X.slowAcquire = "try_clone"
+    ∧ X.waitBeforeSubscribe = "!guard.has_unsubscribed()"
+    ∧ X.storedGuard = "clone_without_increment" ∧ X.flagRead = "unsubscribed"
+    ∧ X.cloneStep = "fetch_add(1" ∧ X.dropIgnoreGuard = "self.ignore_drop" := by decide
+
+/-- `Drop`: the condition under which `Unsubscribe` is sent (`previous_counter == INITIAL_COUNTER`,
+re-extracted) is the model's: `dropDec` moves to `dropping` exactly when it holds for the value read
+by `fetch_sub`. -/
+theorem c29_drop_cond_is_source (s : St) (t g : Nat) (hp : s.pc t = .idle) (hg : g ∈ s.handles) :
+    ∃ s', stepFn s (.dropDec t g) = some s' ∧
+      (s'.pc t = .dropping g ↔ X.dropLastCond P2.Extracted.C29.initialCounter (s.cells g) = true) := by
+  simp only [stepFn, hp, hg, and_self, if_true, P2.Extracted.C29.dropLastCond,
+    P2.Extracted.C29.initialCounter, initialCounter, decide_eq_true_eq]
+  by_cases h1 : s.cells g = 1
+  · simp [h1, St.setPc, setFn]
+  · simp [h1, hp]
+
+/-- `Drop`, the block run for the last reference (translated by rs2lean from the current body): first
+the `Unsubscribe` message (1), then the `unsubscribed` flag (2).  This order is what lets the model
+treat "send + flag" as the single atomic step `dropSend`: whoever sees the flag knows the message is
+already in the manager's mailbox.  Swapping the two statements changes the trace to `[2, 1]`. -/
+theorem c29_drop_last_is_source (flag : Bool) (trace : List Nat) :
+    X.guardDropLast flag trace = (true, trace ++ [1, 2]) := by
+  simp [P2.Extracted.C29.guardDropLast]
+
 /-! ### The pinned code violates the property (three windows) -/
 
 /-- observable part of a state -/
